@@ -1,5 +1,18 @@
 //! Reach probes each check expects to hit (a probe at zero is listed under `unreached`).
-pub fn expected(prop: &str) -> &'static [&'static str] {
+pub fn expected(prop: &str) -> Vec<String> {
+    if prop == "C18" {
+        let mut v: Vec<String> = vec!["metric_change".into(), "metric_identity".into()];
+        for a in crate::metric::ALL_METRICS {
+            for b in crate::metric::ALL_METRICS {
+                v.push(format!("pair_{a:?}_to_{b:?}"));
+            }
+        }
+        return v;
+    }
+    expected_static(prop).iter().map(|s| s.to_string()).collect()
+}
+
+fn expected_static(prop: &str) -> &'static [&'static str] {
     match prop {
         "C01" | "C02" | "C04" | "C15" => &["insert_next_to_single_item_child", "bucket_resplit", "split_collapsed", "tree_count_grown", "tree_count_shrunk", "single_bucket_shortcut_taken_from_forest", "single_bucket_left", "zero_normal_split", "recycled_ids_exhausted", "single_item_child_present", "clear"],
         "C14" => &["build_with_memory_hint", "leaf_batch_cut_by_memory_hint", "bucket_resplit", "tree_count_grown"],
